@@ -840,7 +840,17 @@ def r20_9(ctx, prog, crate):
                   "TreeColumn::%s is %s; expected true exactly for %s, the %s column of TreeColumn::ALL" % (fn, desc, names[want_idx], "first" if not from_end else "last"), b.where(0))
 
 
+def r20_13(ctx, prog, crate):
+    """(= R18.2) The throughput continuation rows show the value computed for the benchmark above them: the count per second
+    is scaled with the table (1000^k / 1024^k) that belongs to the suffix printed next to it, so that a row agrees with the
+    time printed in the same column."""
+    from .C18 import r18_2
+    from .common import Renamed
+    r18_2(Renamed(ctx, "R20.13"), prog, crate)
+
+
 def run(ctx, prog, crate):
+    r20_13(ctx, prog, crate)
     r20_8(ctx, prog, crate)
     r20_9(ctx, prog, crate)
     r20_10(ctx, prog, crate)
